@@ -76,6 +76,7 @@ def h_iterate(E, shape):
     eqv(E, it.aug_lag_deriv_y(), c, "C13.aug_lag_deriv_y")
     eqm(E, it.aug_lag_deriv_xy(), J, "C13.aug_lag_deriv_xy") if m else None
     eqm(E, it.aug_lag_deriv_xx(rho), R["Lxx"], "C13.aug_lag_deriv_xx")
+    eqm(E, it.aug_lag_deriv_xx(0.0), ref_point(spec, x, y, 0.0)["Lxx"], "C13.aug_lag_deriv_xx")  # penalty-free Lagrangian Hessian
     # violations
     E.prove(it.cons_violation == common.inf_norm(c), "C13.cons_violation")
     lb, ub = spec["xl"], spec["xu"]
@@ -162,9 +163,32 @@ def h_func(E, shape):
     sub = [s * u if u != INF else INF for u in ub]
     act_ref = [lor(p_ref[j] < slb[j] - 1e-8, p_ref[j] > sub[j] + 1e-8) for j in range(n)]
     E.prove(land(*[iff(a, b) for a, b in zip(items(act), act_ref)]), "C13.active_set_rule")
+    np = boot.np
+    if shape.get("default_active_set"):
+        # no active set given: the function uses the one of its own rule
+        val = func.value_at(it, rho)
+        projd = [ite(act_ref[j], smin(smax(p_ref[j], slb[j]), sub[j]), p_ref[j]) for j in range(n)]
+        if scaled:
+            vref = [lam * x[j] - projd[j] for j in range(n)] + [-(lam * y[i] - (lam * yh[i] + R["c"][i])) for i in range(m)]
+        else:
+            vref = [x[j] - projd[j] for j in range(n)] + [y[i] - (yh[i] + dt * R["c"][i]) for i in range(m)]
+        eqv(E, val, vref, "C13.residual_value_default_active_set")
+        Dd = func.deriv_at(it, rho)
+        refd = [[0.0] * (n + m) for _ in range(n + m)]
+        for a in range(n):
+            for b in range(n):
+                base = (lam if scaled else 1.0) if a == b else 0.0
+                refd[a][b] = base + ite(act_ref[a], 0.0, (1.0 if scaled else dt) * R["Lxx"][a][b])
+            for i in range(m):
+                refd[a][n + i] = ite(act_ref[a], 0.0, (1.0 if scaled else dt) * R["J"][i][a])
+        for i in range(m):
+            for b in range(n):
+                refd[n + i][b] = -(1.0 if scaled else dt) * R["J"][i][b]
+            refd[n + i][n + i] = lam if scaled else 1.0
+        eqm(E, Dd, refd, "C13.generalised_jacobian_default_active_set")
+        return
     # arbitrary active set (symbolic mask) for value and derivative
     mask = [E.bool(f"act{j}") for j in range(n)]
-    np = boot.np
     maska = np.array(mask, dtype=bool)
     try:
         val = func.value_at(it, rho, maska)
